@@ -132,8 +132,10 @@ def check(cx):
                 probs.append('search domain is %s, expected segments[prev..] scanned forward' % term_str(sterm)[:160])
             idx = ('firstidx', sterm, ivar, P)
             nf = NF()
-            c_hit = simp(prev2, {found: True})
-            c_miss = simp(prev2, {found: False})
+            nonempty0 = ('icmp', 'ne', lenS, ('ic', 0))
+            domlen0 = ('icmp', 'lt', a.it.iadd(prev, idx), dom[3]) if dom is not None else nonempty0
+            c_hit = reduce_index(simp(prev2, {found: True}), frozenset({found, nonempty0, domlen0}))
+            c_miss = reduce_index(simp(prev2, {found: False}), frozenset({mk_not(found), nonempty0}))
             if not (isinstance(c_hit, tuple) and nf(c_hit).equals(nf(idx) + nf(prev))):
                 probs.append('on a match the cursor becomes %s, expected (index in the sub-slice) + prev (REBASE)' % term_str(c_hit)[:160])
             if not (isinstance(c_miss, tuple) and nf(c_miss).equals(nf(lenS) - nf(('ic', 1)))):
